@@ -94,6 +94,7 @@ let parse_top tok = let open Table in
   | ["selectif"; m; s] -> TSelectIf (z m, n s) | ["selofsel"; ss; m; s] -> TSelOfSel (n ss, z m, n s)
   | ["selsort"; ss] -> TSelSort (n ss) | ["selsum"; ss] -> TSelSum (n ss) | ["selrev"; ss] -> TSelReverse (n ss)
   | ["selrm"; ss; j; c] -> TSelRemove (n ss, n j, n c) | ["selcount"; ss] -> TSelCount (n ss) | ["rmsel"; ss] -> TRemoveSel (n ss)
+  | ["findm"; v; s] -> TFindMulti (z v, n s) | ["bcount"; s] -> TBoundsCount (n s) | ["bat"; s; j] -> TBoundsAt (n s, n j) | ["bsum"; s] -> TBoundsSum (n s)
   | _ -> failwith ("bad op " ^ tok)
 let run_dt toks = let open Table in
   let ops = Stdlib.List.map parse_top toks in
@@ -133,6 +134,13 @@ let run_g toks =
   | ["rawadv"; c; i; d] ->
     (match Gen_DataRawIterator.raw_add_assign (u64 i) (fun _ -> u64 c) (z d) (zi 1) with
      | GenPrelude.Ok i' -> print_endline ("A=" ^ string_of_z i') | o -> print_endline (oc o))
+  | ["mhadv"; c; i; d] ->      (* bounds of c rows: mRaw0 = first raw (null iff c = 0), mRawBegin = value array of the others (null iff c <= 1), mRawCount = c *)
+    let c' = int_of_string c in
+    (match Gen_MultiHashIterator.mh_add_assign (zi (if c' > 0 then 1 else 0)) (zi (if c' > 1 then 1 else 0)) (z i) (z c) (z d) with
+     | GenPrelude.Ok (_, i') -> print_endline ("A=" ^ string_of_z i') | o -> print_endline (oc o))
+  | ["mharrow"; c; i] ->
+    let c' = int_of_string c in
+    print_endline (oc (Gen_MultiHashIterator.mh_arrow (zi (if c' > 0 then 1 else 0)) (zi (if c' > 1 then 1 else 0)) (z i) (z c)))
   | ["rawarrow"; c; i] -> print_endline (oc (Gen_DataRawIterator.raw_arrow (u64 i) (fun _ -> u64 c) (zi 1)))
   | ["defadv"; _; _; d] -> print_endline (oc (Gen_ArrayIndexIterator.op_add_assign (fun _ -> zi 0) (zi 0) (zi 0) (z d)))
   | ["arrow"; _; c; i] -> print_endline (oc (Gen_ArrayIndexIterator.op_arrow (fun _ -> u64 c) (zi 1) (u64 i)))
